@@ -44,6 +44,10 @@ func (configuration *Configuration) Marshal() ([]byte, error) {
 }
 
 func (configuration *Configuration) Unmarshal(b []byte) error {
+	if len(b) == 0 {
+		return errors.Errorf("Configuration: The payload body is empty")
+	}
+
 	if len(b) > 0 {
 		// bounds checking
 		if len(b) <= 4 {
